@@ -9,3 +9,26 @@ package clientsets
 //@   modifies hashwritten
 //@   ensures [unsynced] c.shardCount == 0 ==> result1 != nil
 //@   ensures [same] c.shardCount != 0 ==> result1 == nil && result == shardOf(cluster, c.shardCount) && 0 <= result && result < c.shardCount
+
+// (C13) The gateway addresses an upstream's requests to the server it knows as leader of the upstream's shard: the client
+// returned for a cluster talks to exactly the address recorded for shard(cluster) -- never to another shard's leader -- and
+// there is no client while the shard has no known leader. The client cache is keyed by the server address.
+//@ const LE = &c.leaderEndpoints
+//@ const CC = &c.clientsCache
+//@ const ccWF = forall k ref :: {smhas(CC, k)} smhas(CC, k) ==> typeis(k, "string") && typeis(smget(CC, k), "*clientCache") && unbox(smget(CC, k), "*clientCache") != nil && allocated(unbox(smget(CC, k), "*clientCache")) && unbox(smget(CC, k), "*clientCache").client != nil && serverOfClient(unbox(smget(CC, k), "*clientCache").client) == unbox(k, "string")
+//@ func (*clientSets).createClient props C13
+//@   trusted "builds a rest config for the address and a clientset from it (client-go)"
+//@   modifies nothing
+//@   ensures result1 == nil ==> result != nil && serverOfClient(result) == server
+//@ func (*clientSets).getOrCreateClient props C13
+//@   requires [cache_wf] ccWF
+//@   modifies smap(CC)[box(server)], clock
+//@   ensures [cache_wf] ccWF
+//@   ensures [talks_to_server] result1 == nil ==> result != nil && serverOfClient(result) == server
+//@ func (*clientSets).ClientFor props C13
+//@   requires [count_range] 0 <= c.shardCount && c.shardCount <= 4294967295
+//@   requires [cache_wf] ccWF
+//@   requires [leaders_typed] forall k ref :: {smhas(LE, k)} smhas(LE, k) ==> typeis(smget(LE, k), "string")
+//@   modifies smap(CC), clock, hashwritten
+//@   ensures [leader_of_own_shard] result1 == nil ==> c.shardCount != 0 && old(smhas(LE, box(shardOf(cluster, c.shardCount)))) && serverOfClient(result) == old(unbox(smget(LE, box(shardOf(cluster, c.shardCount))), "string"))
+//@   ensures [no_leader_no_client] c.shardCount == 0 || !old(smhas(LE, box(shardOf(cluster, c.shardCount)))) ==> result1 != nil
